@@ -351,17 +351,6 @@ theorem pinv_init : PInv {} where
 
 theorem pord_init : POrd {} := ⟨List.Pairwise.nil, fun m hm => by cases hm⟩
 
-/-- the generic branch of `handlePluginMessage` writes directly (both phases complete) -/
-def Play.goesDirect (p : Play) : Bool :=
-  match p.cur with
-  | none => false
-  | some s => p.hasConn s && p.inPlay s && (p.bphase s != .transition) && p.clientComplete && (p.bphase s).complete
-
-/-- the op does not write directly past a non-empty queue -/
-def Play.opOK (p : Play) : POp → Bool
-  | .msg _ => !p.goesDirect || p.q.queue.isEmpty
-  | _ => true
-
 theorem pinv_drainTo {p : Play} (b : Nat) (h : PInv p) : PInv (p.drainTo b).1 := by
   unfold Play.drainTo
   simp only [Q.drain]
@@ -606,11 +595,6 @@ theorem pord_pstep {p : Play} (op : POp) (h : PInv p) (ho : POrd p) (hok : p.opO
   | setInPlay b v => exact ⟨ho.dOrder, ho.qNewer⟩
   | setBPhase b ph => exact ⟨ho.dOrder, ho.qNewer⟩
   | setClientComplete v => exact ⟨ho.dOrder, ho.qNewer⟩
-
-/-- every op along the run respects `opOK` -/
-def pDisciplined (p : Play) : List POp → Bool
-  | [] => true
-  | a :: as => p.opOK a && pDisciplined (pstep p a).1 as
 
 theorem pord_exec : ∀ (ops : List POp) {p : Play}, PInv p → POrd p → pDisciplined p ops = true →
     POrd (pexec p ops)
